@@ -164,6 +164,8 @@ let str_event = function
       (str_on (fun (lo, hi) -> str_nat lo ^ "," ^ (match hi with Some h -> str_nat h | None -> "none")) o.ob_hint)
       (str_on str_bool o.ob_term)
   | EAlloc n -> "alloc " ^ str_nat n
+  | EInj (p, k, sl) -> Printf.sprintf "inj %s %s %s" (match p with IReg -> "reg" | IMid -> "mid" | IExit -> "exit") (str_nat k)
+                         (match sl with Some (b, i) -> Printf.sprintf "%s.%s" (str_nat b) (str_nat i) | None -> "-")
   | ELeak -> "leak"
   | EStuck -> "STUCK"
   | EOutOfFuel -> "OUTOFFUEL"
@@ -238,6 +240,10 @@ let parse_event (addrs : (string, int) Hashtbl.t) (line : string) : event option
                  ob_cap = opt_of nat (kv_val c); ob_hint = opt_of hint (kv_val h);
                  ob_term = opt_of (fun s -> s = "1") (kv_val t) })
   | ["alloc"; n] -> Some (EAlloc (nat n))
+  | ["inj"; p; k; sl] ->
+    let slot = if sl = "-" then None else
+        (match split_on '.' sl with [b; i] -> Some (nat b, nat i) | _ -> None) in
+    Some (EInj ((match p with "reg" -> IReg | "mid" -> IMid | _ -> IExit), nat k, slot))
   | "leak" :: _ | "twbal" :: _ -> Some ELeak
   | ["STUCK"] -> Some EStuck
   | ["OUTOFFUEL"] -> Some EOutOfFuel
